@@ -165,12 +165,78 @@ def replay(function, clause, model):
     return {'reproduced': False, 'detail': 'no replay rule for ' + function}
 
 
+def bounded(tier, seed):
+    """every string up to a length over an alphabet with one character of each class, through the five validators AND through
+    the four message constructors (which reach the validators partly through the marshalling of the header, not under
+    contract here), against the reference grammar (contracts/grammar.py PY regexes, written from the DBus specification)"""
+    import itertools
+    from txdbus import marshal, message
+    from txdbus.error import MarshallingError
+    alpha = ['/', 'a', 'Z', '1', '_', '.', ':', '-', '\u00e9', ' ']
+    L = 5 if tier == 'thorough' else 4
+    vals = [('path', marshal.validateObjectPath), ('interface', marshal.validateInterfaceName), ('error', marshal.validateErrorName),
+            ('bus', marshal.validateBusName), ('member', marshal.validateMemberName)]
+    n = 0
+    strings = [''.join(t) for k in range(0, L + 1) for t in itertools.product(alpha, repeat=k)]
+    strings += ['a.' * 127 + 'a', 'a.' * 127 + 'ab', ':1.' + 'a' * 252, ':1.' + 'a' * 253, '/' + 'a' * 300, 'a' * 255, 'a' * 256, ':.a', ':.1.2', 'a..b', '.a.b', 'a.b.']
+    for s_ in strings:
+        for kind, fn in vals:
+            n += 1
+            try:
+                fn(s_)
+                acc = True
+            except MarshallingError:
+                acc = False
+            except Exception as e:
+                return n, '%s(%r) raised %s, not MarshallingError' % (fn.__name__, s_, type(e).__name__), {'validator': fn.__name__, 'string': s_}
+            if acc != G.py_ok(kind, s_):
+                return n, '%s %s %r; the DBus grammar %s it' % (fn.__name__, 'accepts' if acc else 'rejects', s_, 'allows' if G.py_ok(kind, s_) else 'forbids'), {'validator': fn.__name__, 'string': s_}
+    # constructors: a message carrying a name its validator rejects cannot be constructed (sample: every 3rd string, plus specials)
+    def build_all(path=None, iface=None, member=None, dest=None, err=None):
+        out = []
+        for what, mk in (('MethodCallMessage', lambda: message.MethodCallMessage('/p' if path is None else path, 'M' if member is None else member, interface=iface, destination=dest)),
+                         ('SignalMessage', lambda: message.SignalMessage('/p' if path is None else path, 'M' if member is None else member, iface if iface is not None else 'a.b', destination=dest)),
+                         ('MethodReturnMessage', lambda: message.MethodReturnMessage(1, destination=dest)),
+                         ('ErrorMessage', lambda: message.ErrorMessage(err if err is not None else 'a.b', 1, destination=dest))):
+            try:
+                mk()
+                out.append((what, True))
+            except MarshallingError:
+                out.append((what, False))
+            except Exception as e:
+                out.append((what, 'raised %s' % type(e).__name__))
+        return out
+    sample = strings[::3] + strings[-12:]
+    for s_ in sample:
+        for field, kind in (('path', 'path'), ('iface', 'interface'), ('member', 'member'), ('dest', 'bus'), ('err', 'error')):
+            n += 1
+            want = G.py_ok(kind, s_) and not (field == 'path' and s_ == '/org/freedesktop/DBus/Local')
+            for what, ok in build_all(**{field: s_}):
+                uses = {'path': ('MethodCallMessage', 'SignalMessage'), 'iface': ('MethodCallMessage', 'SignalMessage'), 'member': ('MethodCallMessage', 'SignalMessage'),
+                        'dest': ('MethodCallMessage', 'SignalMessage', 'MethodReturnMessage', 'ErrorMessage'), 'err': ('ErrorMessage',)}[field]
+                if what not in uses:
+                    continue
+                if ok is not True and ok is not False:
+                    return n, '%s with %s=%r %s' % (what, field, s_, ok), {'class': what, 'field': field, 'string': s_}
+                if ok != want:
+                    return n, '%s with %s=%r %s; the grammar %s that name' % (what, field, s_, 'was constructed' if ok else 'was refused', 'allows' if want else 'forbids'), {'class': what, 'field': field, 'string': s_}
+    return n, None, None
+
+
+def run_bounded(tier, seed):
+    n, f, inp = bounded(tier, seed)
+    return {'tool': 'exhaustive short strings through the real validators and message constructors against the reference grammar',
+            'bound': 'every string of length <= %d over a 10-character alphabet (one character per class: / letter digit _ . : - non-ASCII letter space) x 5 validators; every third of them x 5 name fields x the constructors that take the field; length-limit and empty-element specials' % (5 if tier == 'thorough' else 4),
+            'evaluations': n, 'failures': [] if not f else [{'function': 'txdbus.marshal validators / txdbus.message constructors', 'clause': 'grammar', 'input': inp, 'detail': f}]}
+
+
 def build(tier='quick'):
     w = World()
     message_classes(w)
     add_validator_contracts(w)
     add_constructor_contracts(w)
     return Spec('C18', w, make_models, list(VALIDATORS) + CTORS, replay=replay, regular_strings=True,
+                bounded=[{'name': 'names-enumeration', 'run': run_bounded}],
                 trusted=['z3 regular-expression / string theory', 'python re character classes translated to z3 regex (\\d and str.isdigit taken as ASCII digits; non-ASCII digits get an unconstrained verdict)',
                          'exception message text is opaque'],
                 assumed=['txdbus.message.DBusMessage._marshal: path header is encoded as ObjectPath and therefore validated (proved under C03 when claimed)'],
